@@ -286,28 +286,47 @@ def build_model(ctx, rng, lat, explicit_plus_hc=False, allow_exp=True, long_rang
                 raise
             calls.append(['add_multi_coupling', repr(st), [[n, dx, u] for n, dx, u in ops], plus_hc])
             ctx.count('call.add_multi_coupling')
-            dxs = np.array([o[1] for o in ops])
-            for x in itertools.product(*[range(n) for n in lat.Ls]):
-                row, ok = [], True
-                for (name, dx, u) in ops:
-                    t = G.target(x, dx)
-                    if t is None:
-                        ok = False
-                        break
-                    y, w0 = t
-                    j = G.index.get(tuple(y) + (u, ))
-                    if j is None:
-                        ok = False
-                        break
-                    row.append((name, j + (w0 * G.N if G.infinite else 0)))
-                if not ok:
-                    continue
-                if any(G.bc_open[a] and (x[a] + dxs[:, a].min() < 0 or x[a] + dxs[:, a].max() >= G.Ls[a]) for a in range(G.dim)):
-                    continue
-                if len(set(j for _, j in row)) < len(row):
-                    ok = False  # periodic wrap put two operators on the same site
-                    raise _Skip()
-                add_term(st, row, plus_hc)
+            def ref_multi(st, ops, plus_hc):
+                dxs = np.array([o[1] for o in ops])
+                for x in itertools.product(*[range(n) for n in lat.Ls]):
+                    row, ok = [], True
+                    for (name, dx, u) in ops:
+                        t = G.target(x, dx)
+                        if t is None:
+                            ok = False
+                            break
+                        y, w0 = t
+                        j = G.index.get(tuple(y) + (u, ))
+                        if j is None:
+                            ok = False
+                            break
+                        row.append((name, j + (w0 * G.N if G.infinite else 0)))
+                    if not ok:
+                        continue
+                    if any(G.bc_open[a] and (x[a] + dxs[:, a].min() < 0 or x[a] + dxs[:, a].max() >= G.Ls[a]) for a in range(G.dim)):
+                        continue
+                    if len(set(j for _, j in row)) < len(row):
+                        ok = False  # periodic wrap put two operators on the same site
+                        raise _Skip()
+                    add_term(st, row, plus_hc)
+
+            ref_multi(st, ops, plus_hc)
+            if far is not None and not finite and rng.random() < 0.5:
+                # a twin coupling: the same operators, the last one a whole number of MPS unit cells further away (the MPO graph has to
+                # keep the two apart although they agree up to the switch site and modulo the unit cell beyond it)
+                shift_ = int(rng.integers(1, 3)) * int(lat.Ls[0])
+                ops_t = ops[:-1] + [(ops[-1][0], [ops[-1][1][0] + shift_] + list(ops[-1][1][1:]), ops[-1][2])]
+                sw_ = str(rng.choice(['middle_i', 'middle_op']))
+                st_t = rand_strength(rng, None, cplx)
+                try:
+                    m.add_multi_coupling(st_t, ops_t, plus_hc=plus_hc, switchLR=sw_)
+                except ValueError as e:
+                    if 'onsite term instead of coupling' in str(e):
+                        raise _Skip()
+                    raise
+                calls.append(['add_multi_coupling(twin)', repr(st_t), [[n, dx, u] for n, dx, u in ops_t], plus_hc, sw_])
+                ctx.count('call.multi_coupling_twin')
+                ref_multi(st_t, ops_t, plus_hc)
             hermitian = None if not plus_hc else hermitian
         elif kind == 'add_exp' and allow_exp:
             u = 0
@@ -476,6 +495,12 @@ def case_random(ctx, i):
                 ctx.count('rep.exactdiag')
                 if not report('ExactDiag.build_full_H_from_mpo', np.asarray(He)):
                     return
+                # (default of the exporter: the basis order of conserve=None; sites can have any sorting permutation)
+                He_u = ED.get_numpy_Hamiltonian(mm, from_mpo=from_mpo, undo_sort_charge=True)
+                if any(not np.array_equal(np.argsort(p_), p_) for p_ in perms):
+                    ctx.count('rep.exactdiag_undo_sort_non_involution')
+                if not report('ExactDiag.build_full_H_from_mpo(undo_sort_charge)', to_leg_basis(np.asarray(He_u))):
+                    return
         # --- bond representation (only if all terms are nearest-neighbour in the MPS)
         try:
             Hb = m.calc_H_bond()
@@ -508,6 +533,9 @@ def case_random(ctx, i):
             He = ED.get_numpy_Hamiltonian(nn, from_mpo=False, undo_sort_charge=False)
             ctx.count('rep.exactdiag_from_bonds')
             if not report('ExactDiag.build_full_H_from_bonds', np.asarray(He)):
+                return
+            He_u = ED.get_numpy_Hamiltonian(nn, from_mpo=False, undo_sort_charge=True)
+            if not report('ExactDiag.build_full_H_from_bonds(undo_sort_charge)', to_leg_basis(np.asarray(He_u))):
                 return
             # the same bonds recovered from an MPOModel
             nn2 = NearestNeighborModel.from_MPOModel(MPOModel(lat, H))
